@@ -367,9 +367,9 @@ def hang_signature(c):
 
 
 # --------------------------------------------------------------------------------------- generators
-def spec(n, stages, det=None, i="I", o="I", e="I", errto=0, shape="L", term="join", data=0, read="0", write=0, errwhen="late"):
-    return "n=%d stages=%s det=%s in=%s out=%s err=%s errto=%d errwhen=%s shape=%s term=%s data=%d read=%s write=%d" % (
-        n, ",".join(stages), det or "0" * n, i, o, e, errto, errwhen, shape, term, data, read, write)
+def spec(n, stages, det=None, i="I", o="I", e="I", errto=0, shape="L", term="join", data=0, read="0", write=0, errwhen="late", sib=0):
+    return "n=%d stages=%s det=%s in=%s out=%s err=%s errto=%d errwhen=%s shape=%s term=%s data=%d read=%s write=%d sib=%d" % (
+        n, ",".join(stages), det or "0" * n, i, o, e, errto, errwhen, shape, term, data, read, write, sib)
 
 
 def shapes_for(n, rng):
@@ -474,6 +474,13 @@ def gen_c12(ctx):
         specs.append(spec(1, [beh], term="capture", read="all"))
         specs.append(spec(1, [beh], o="F", term="popen"))
         specs.append(spec(1, [beh], o="F", term="popen", det="1"))
+    # an unrelated child started while the handle is alive (and outliving it) must not keep the pipe's other end open
+    for rd in ["0", "10"]:
+        specs.append(spec(1, ["Y"], term="stream_stdout", read=rd, sib=1))
+        specs.append(spec(1, ["YE"], term="stream_stderr", read=rd, sib=1))
+        specs.append(spec(2, ["Y", "C"], term="stream_stdout", read=rd, sib=1))
+    specs.append(spec(1, ["C"], o="F", term="stream_stdin", write=10, sib=1))
+    specs.append(spec(1, ["Y"], o="P", term="popen", sib=1))
     specs.append(spec(1, ["Y"], o="P", term="popen", det="1"))      # detached: the drop neither blocks nor reaps
     specs.append(spec(1, ["C"], i="P", o="F", term="popen", det="1"))
     specs.append(spec(1, ["Y"], o="P", term="popen"))                # plain Popen with a pipe: Popen::drop releases it
